@@ -87,6 +87,9 @@ def handle0 (case impl : List String) : Verdict :=
     | some x, some a, some b =>
       let representable := 0 < b - a && b - a ≤ i32Max
       let tag := if representable then "width-ok" else if b - a ≤ 0 then "empty-range" else "width-overflow"
+      -- the property speaks of ranges whose width is representable ("whenever the range width is
+      -- representable"): for the others (the model panics, as the code does today) nothing is compared
+      if !representable then Verdict.ok [tag, "outside-quantifier"] else
       match uniformI32 x a b with
       | .panic m =>
         let v := Verdict.ok [tag, "panic"]
